@@ -17,8 +17,8 @@ def sh(cmd, cwd=None, timeout=3600):
 
 def confirm(d):
     wt = "/tmp/mutcheck_" + os.path.basename(os.path.abspath(d))
-    sh("git -C /repo worktree remove --force %s" % wt)
-    r = sh("git -C /repo worktree add -q --detach %s HEAD" % wt)
+    sh("rm -rf %s" % wt)
+    r = sh("git clone -q --local /repo %s" % wt)
     if r.returncode:
         print(r.stderr)
         return 2
@@ -55,7 +55,7 @@ def confirm(d):
             print(os.path.basename(d), "no Go test demo found; check manually")
         return 0
     finally:
-        sh("git -C /repo worktree remove --force %s" % wt)
+        sh("rm -rf %s" % wt)
 
 
 def evaluate(d, pid, tier="quick"):
